@@ -303,9 +303,18 @@ func GenRibHistory(r *rand.Rand, cfg *RibCfg) []Step {
 type hookRec struct {
 	mu  sync.Mutex
 	evs []string
+	// park, when set, is called (outside the lock) at every notification: a case can hold the
+	// operation that is being applied at exactly this point while something else happens
+	park func()
 }
 
 func (h *hookRec) fn(op constants.OpType, _ int64, ni string, e ygot.ValidatedGoStruct) {
+	h.mu.Lock()
+	pk := h.park
+	h.mu.Unlock()
+	if pk != nil {
+		pk()
+	}
 	h.mu.Lock()
 	defer h.mu.Unlock()
 	kind := "add"
